@@ -14,7 +14,7 @@ BUDGET = {'quick': 500, 'thorough': 40000}
 TIME = {'quick': 100, 'thorough': 800}
 RULE = ('histories: action kind (snapshot/log/metric/span) x fire_count text x fire_period text x window x up to 40 '
         'hits with scripted clock (boundary spacings: exactly period, +-1 ns, backwards steps) and per-hit condition '
-        '(true/false/raising), driven through the real TriggerHandler.trace_call; schedules: all 20 interleavings of '
+        '(true/false/raising) and, in 30% of the histories, unrelated configuration changes (register/unregister of another tracepoint through the real TracepointConfigService) between hits, driven through the real TriggerHandler.trace_call; schedules: all 20 interleavings of '
         '2 threads x (check, process, record) forced with gates inside the condition and a watch. A case is '
         'non-trivial when at least one hit is rejected by a limit and at least one collects (or, for schedules, when '
         'the threads overlap). Distinct = distinct canonical JSON of the case.')
@@ -46,6 +46,8 @@ def reference(case):
     we = case['cfg'].get('window_end') or 0
     made, last, out = 0, None, []
     for h in case['hits']:
+        if 'op' in h:
+            continue
         ts = h['ts']
         ok = (cnt == -1 or made < cnt)
         ok = ok and (ws <= 0 or ws <= ts) and (we <= 0 or ts <= we)
@@ -87,10 +89,13 @@ def gen_history(rng, kind=None):
             ts += rng.randint(step, 3 * step)
         c = rng.random()
         hits.append({'ts': ts, 'cond': 'true' if c < 0.7 else ('false' if c < 0.87 else 'raise')})
+    if rng.random() < 0.3:
+        for _ in range(rng.randint(1, 3)):
+            hits.insert(rng.randint(1, len(hits)), {'op': rng.choice(['register', 'register', 'unregister'])})
     case = {'kind': 'history', 'action': kind or rng.choice(KINDS), 'cfg': cfg, 'hits': hits, 'via': 'args'}
     w = rng.random()
     if w < 0.35:
-        lo, hi = hits[0]['ts'], max(h['ts'] for h in hits)
+        lo, hi = hits[0]['ts'], max(h['ts'] for h in hits if 'op' not in h)
         a = rng.randint(max(1, lo - 5), hi)
         b = rng.randint(a, hi + 5)
         mode = rng.choice(['both', 'start', 'end'])
@@ -209,7 +214,8 @@ def run_history(case):
     rig = Rig(metric=True, span=True)
     try:
         trig = make_action(rig, case)
-        rig.install([trig])
+        rig.install_via_service([trig])
+        regs = []
         collected = []
         state = {'cond': 'true'}
 
@@ -218,6 +224,13 @@ def run_history(case):
                 raise ValueError('condition fails')
             return state['cond'] == 'true'
         for h in case['hits']:
+            if 'op' in h:
+                # an unrelated configuration change while the tracepoint stays installed
+                if h['op'] == 'register':
+                    regs.append(rig.config.tracepoints.add_custom('elsewhere.py', 3, {}, [], []))
+                elif regs:
+                    rig.config.tracepoints.remove_custom(regs.pop())
+                continue
             state['cond'] = h['cond']
             rig.clock = h['ts']
             before = rig.effect_count()
@@ -385,7 +398,8 @@ def model_request(case, obs):
         for k in ('window_start', 'window_end'):
             if k in case['cfg']:
                 cfg[k] = case['cfg'][k]
-    return {'op': 'run', 'cfg': cfg, 'hits': [{'ts': h['ts'], 'cond': h['cond'] == 'true'} for h in case['hits']]}
+    return {'op': 'run', 'cfg': cfg, 'hits': [{'ts': h['ts'], 'cond': h['cond'] == 'true'} for h in case['hits']
+                                              if 'op' not in h]}
 
 
 def compare(case, obs, resp):
@@ -402,14 +416,16 @@ def label(case, obs):
     if case['kind'] == 'schedule':
         return 'schedule/' + ('overlap' if overlapping(case) else 'serial')
     n = len(obs.get('collected', []))
-    return f"{case['action']}/{case['via']}/" + ('none' if n == 0 else 'all' if n == len(case['hits']) else 'some')
+    hits = [h for h in case['hits'] if 'op' not in h]
+    ops = '+cfgops' if len(hits) != len(case['hits']) else ''
+    return f"{case['action']}/{case['via']}{ops}/" + ('none' if n == 0 else 'all' if n == len(hits) else 'some')
 
 
 def nontrivial(case, obs):
     if case['kind'] == 'schedule':
         return overlapping(case)
     n = len(obs.get('collected', []))
-    return 0 < n < len([h for h in case['hits'] if h['cond'] == 'true'])
+    return 0 < n < len([h for h in case['hits'] if h.get('cond') == 'true'])
 
 
 def shrink(case):
